@@ -16,6 +16,17 @@ from fiddle._src import config as _cfg   # only for the Buildable *type*
 Buildable = _cfg.Buildable
 
 
+_CONSTS = (bool, int, float, complex, str, bytes, type(None), enum.Enum,
+           type(Ellipsis), type(NotImplemented))
+
+
+def _constant_tuple(x):
+  """Tuples of constants (recursively) have no identity worth speaking of:
+  Python may intern them."""
+  return type(x) is tuple and all(
+      isinstance(e, _CONSTS) or _constant_tuple(e) for e in x)
+
+
 def is_namedtuple(x):
   return isinstance(x, tuple) and hasattr(type(x), '_fields') and hasattr(
       type(x), '_asdict')
@@ -114,7 +125,7 @@ class Canon:
       n = self.memo[id(x)] if self.numbering else -1
       return ('list', n, tuple(self.c(v) for v in x))
     if t is tuple:
-      if self.tuple_identity and x != ():
+      if self.tuple_identity and x != () and not _constant_tuple(x):
         r = self._visit(x)
         if r is not None:
           return r
